@@ -269,6 +269,34 @@ func realPurity(text string, tree *Tree) string {
 			}
 		}
 	}
+	// equal inputs, equal results - also after the collection is edited: a collection that went through evaluations and
+	// a twin with the same content that never did are edited alike and must keep giving equal results
+	for _, used := range sets {
+		twin := variables.NewVariableCollection()
+		for _, v := range used.GetAll() {
+			twin.Add(variables.NewVariable(v.Name(), v.Value()))
+		}
+		for used.Length() > 2 {
+			k := rnd.Intn(used.Length() - 1)
+			used.Remove(k)
+			twin.Remove(k)
+			r1, e1 := rc.EvaluateUsingVariables(used)
+			fresh := calculator.NewExpressionCalculator()
+			fresh.SetExpression(text)
+			r2, e2 := fresh.EvaluateUsingVariables(twin)
+			o1, _ := resSX(r1, e1)
+			o2, _ := resSX(r2, e2)
+			if e1 != nil {
+				o1 = sx.L(sx.I(1), sx.S(codeOf(e1)))
+			}
+			if e2 != nil {
+				o2 = sx.L(sx.I(1), sx.S(codeOf(e2)))
+			}
+			if sx.Text(o1) != sx.Text(o2) {
+				return fmt.Sprintf("after removing entry %d from a collection that went through evaluations of %s and from a twin with equal content, evaluation gives %s with the former and %s with the twin (%s)", k, sx.Quote(text), sx.Text(o1), sx.Text(o2), snapshotVars(twin))
+			}
+		}
+	}
 	if prog() != progBefore {
 		return "evaluation modified the compiled program or its constants"
 	}
